@@ -257,13 +257,13 @@ def same_formula(A, B):
             and [list(c) for c in A] == [list(c) for c in B])
 
 
-def graph_history_check(ctx, fam, label, gen, r, n=6, rounds=3):
+def graph_history_check(ctx, fam, label, gen, r, n=6, rounds=3, max_edges=None):
     """A generator's output must be a function of the graph's *current* state: build a formula, then edit the same
     Graph object (swap an edge: vertex and edge counts unchanged; switch two edges: degrees unchanged too; drop an
     edge; grow it by two vertices in one call and connect them) and build again; the result must equal the formula of a freshly built graph with the same edges."""
     from cnfgen.graphs import Graph
     allp = pairs(n)
-    E = set(r.sample(allp, r.randint(2, max(2, len(allp) // 2))))
+    E = set(r.sample(allp, r.randint(2, max(2, min(len(allp) // 2, max_edges or len(allp))))))
     G = Graph(n)
     for e in sorted(E):
         G.add_edge(*e)
